@@ -1,0 +1,123 @@
+//! Simulation seams for external verification harnesses.
+//!
+//! This module only exists when the `verif-hooks` cargo feature is enabled (it is
+//! off by default, and nothing in this workspace enables it). Every hook defaults
+//! to "do nothing", so even with the feature on the server behaves as shipped until
+//! a harness installs a callback on the calling thread.
+#![allow(clippy::unwrap_used, clippy::expect_used)]
+
+use crate::prelude::*;
+use std::cell::{Cell, RefCell};
+use std::time::Duration;
+
+type StorageCb = Box<dyn FnMut(&'static str, u64) -> Result<(), OperationError>>;
+type PauseCb = Box<dyn FnMut(&'static str)>;
+
+thread_local! {
+    static SIM_NOW: Cell<Option<Duration>> = const { Cell::new(None) };
+    static ARC_FLOOR: Cell<Option<usize>> = const { Cell::new(None) };
+    static STORAGE_COUNT: Cell<u64> = const { Cell::new(0) };
+    static STORAGE_CB: RefCell<Option<StorageCb>> = const { RefCell::new(None) };
+    static PAUSE_CB: RefCell<Option<PauseCb>> = const { RefCell::new(None) };
+}
+
+// ---- H1: clock --------------------------------------------------------------
+
+/// Set (or clear) the value `time::duration_from_epoch_now` returns on this thread.
+pub fn set_sim_now(now: Option<Duration>) {
+    SIM_NOW.with(|c| c.set(now));
+}
+
+pub(crate) fn sim_now() -> Option<Duration> {
+    SIM_NOW.with(|c| c.get())
+}
+
+// ---- H5: cache sizing knob -----------------------------------------------------
+
+/// Override the ARC cache target (entries) used by backends created on this thread.
+pub fn set_arc_floor(n: Option<usize>) {
+    ARC_FLOOR.with(|c| c.set(n));
+}
+
+pub(crate) fn arc_floor() -> Option<usize> {
+    ARC_FLOOR.with(|c| c.get())
+}
+
+// ---- H2: storage points ------------------------------------------------------
+
+/// Install the callback run at every storage point of a write transaction on this
+/// thread. It receives the kind of the point ("stmt", "commit", "committed") and
+/// the running index of the point since the last `reset_storage_count`. Returning
+/// an error makes the storage call fail with that error.
+pub fn set_storage_callback(cb: Option<StorageCb>) {
+    STORAGE_CB.with(|c| *c.borrow_mut() = cb);
+}
+
+pub fn reset_storage_count() {
+    STORAGE_COUNT.with(|c| c.set(0));
+}
+
+pub fn storage_count() -> u64 {
+    STORAGE_COUNT.with(|c| c.get())
+}
+
+pub(crate) fn storage_point(kind: &'static str) -> Result<(), OperationError> {
+    let idx = STORAGE_COUNT.with(|c| {
+        let n = c.get() + 1;
+        c.set(n);
+        n
+    });
+    // The callback is taken out while it runs so that storage points reached from
+    // inside it (e.g. a harness booting another server) are not re-entrant.
+    let cb = STORAGE_CB.with(|c| c.borrow_mut().take());
+    match cb {
+        Some(mut f) => {
+            let r = f(kind, idx);
+            STORAGE_CB.with(|c| {
+                let mut slot = c.borrow_mut();
+                if slot.is_none() {
+                    *slot = Some(f);
+                }
+            });
+            r
+        }
+        None => Ok(()),
+    }
+}
+
+// ---- H3: pause points --------------------------------------------------------
+
+/// Install the callback run at every pause point on this thread. A harness may run
+/// another transaction inside it, or park the thread until a scheduler releases it.
+pub fn set_pause_callback(cb: Option<PauseCb>) {
+    PAUSE_CB.with(|c| *c.borrow_mut() = cb);
+}
+
+pub(crate) fn pause(name: &'static str) {
+    let cb = PAUSE_CB.with(|c| c.borrow_mut().take());
+    if let Some(mut f) = cb {
+        f(name);
+        PAUSE_CB.with(|c| {
+            let mut slot = c.borrow_mut();
+            if slot.is_none() {
+                *slot = Some(f);
+            }
+        });
+    }
+}
+
+// ---- H4: reach (public wrappers for crate-private items) -----------------------------
+
+/// The server's own consistency check, run inside an existing read transaction
+/// (no wall clock, no write).
+pub fn verify_read(
+    txn: &mut crate::server::QueryServerReadTransaction<'_>,
+) -> Vec<Result<(), ConsistencyError>> {
+    txn.verify()
+}
+
+/// The change identifier a write transaction stamps on what it writes: (time, server uuid).
+pub fn write_txn_cid(txn: &crate::server::QueryServerWriteTransaction<'_>) -> (Duration, Uuid) {
+    let cid = txn.get_txn_cid();
+    (cid.ts, cid.s_uuid)
+}
